@@ -160,7 +160,7 @@ func (p *Prog) sameValue(a, b ssa.Value) bool {
 func returnsOf(f *ssa.Function) []*ssa.Return {
 	var out []*ssa.Return
 	allInstrs(f, func(i ssa.Instruction) {
-		if r, ok := i.(*ssa.Return); ok {
+		if r, ok := i.(*ssa.Return); ok && r.Block() != f.Recover {
 			out = append(out, r)
 		}
 	})
